@@ -9,7 +9,7 @@ import dask.bag as db
 import numpy as np
 
 from ..sim import gen_sched, MODES, HarnessError
-from ..util import A, L, Result, sig6, random_composition
+from ..util import A, L, Result, sig6, random_composition, is_harness_bug
 from .common import SimRec, gen_simplex, trim, tail
 from .c04 import _cmp, dict_get
 
@@ -522,6 +522,8 @@ def run_case(case, replay=None):
         with dask.config.set(scheduler="synchronous"), np.errstate(all="ignore"):
             mem = _fit_list(case)
     except Exception as e:
+        if is_harness_bug(e):
+            raise HarnessError(f"harness bug: {e!r}")
         mem_exc = e
     sched = case["sched"]
     xmodes = case.get("xmodes")
@@ -553,7 +555,9 @@ def run_case(case, replay=None):
             rec.probe("first_attempt_failed_then_retried")
         except HarnessError:
             raise
-        except Exception:
+        except Exception as _e:
+            if is_harness_bug(_e):
+                raise HarnessError(f"harness bug: {_e!r}")
             pass
         carry.pop("keep", None)
         if "m" in carry:
@@ -567,6 +571,8 @@ def run_case(case, replay=None):
                     ref_m.fit(_copy.deepcopy(carry["stats"]), _labels(case, False))
                     mem, mem_exc = _params(kind, ref_m), None
             except Exception as e:
+                if is_harness_bug(e):
+                    raise HarnessError(f"harness bug: {e!r}")
                 mem_exc = e
             rec.probe("same_machine_retrained_after_failed_attempt")
             snap = (_copy.deepcopy(carry["m"]), _copy.deepcopy(carry["stats"]))
@@ -590,6 +596,8 @@ def run_case(case, replay=None):
     except HarnessError:
         raise
     except Exception as e:
+        if is_harness_bug(e):
+            raise HarnessError(f"harness bug: {e!r}")
         d, d_exc = None, e
     if mem_exc is not None or d_exc is not None:
         if mem_exc is not None and d_exc is not None:
@@ -618,6 +626,8 @@ def run_case(case, replay=None):
             except HarnessError:
                 raise
             except Exception as e:
+                if is_harness_bug(e):
+                    raise HarnessError(f"harness bug: {e!r}")
                 return Result.violation("dask-raises", {"exception": repr(e)[:300], "mode": mode,
                                                         "kind": kind}, **rec.fields())
             bad = _cmp(d, o, 1.0, TOL_MODES)
